@@ -108,6 +108,27 @@ def run(rep, tier, seed):
         if o[0] == 'OK':
             case_decompress(b, o[1], rule, DI.UP, klass='roundtrip:large-variable-length', expect=b2s(pkt), side=rnd.choice([L, R]))
     b.run()
+    # two hosts: this process compresses, a fresh interpreter that has only the JSON text of the context decompresses (and the other way
+    # round): the packet must come back, whatever this process has parsed, matched and compressed before
+    import freshproc
+    rnd2 = rng_for(seed, 'C01-two-hosts')
+    tasks, expected = [], []
+    for i in range(40 if tier == 'quick' else 300):
+        stack, pkt, st, pd = gen_parsed(rnd2, ['IPv6-UDP-CoAP', 'IPv4-UDP-CoAP', 'UDP', 'CoAP', 'SCTP', 'IPv6', 'IPv4'][i % 7])
+        d = rnd2.choice([DI.UP, DI.DOWN])
+        pd.direction = d
+        rules = gen_ruleset(rnd2, pd, match_prob=0.9, kinds=KINDS + ('comp',))
+        ctx = Context(id='c', description='', interface_id='i', parser_id=stack, ruleset=rules)
+        npd = dict(n_pdesc(pd), dir=DIRC[d])
+        first = [nr for nr in (n_rule(r) for r in rules) if ref_rule_applies(npd, nr)]
+        o1 = obs_bits(with_timeout(lambda: ContextManager(ctx).compress(Buffer(pkt, len(pkt) * 8), direction=d)))
+        text = ctx.json()
+        tasks.append(dict(op='cm-compress', context=text, packet=pkt.hex(), direction=DIRC[d], strategy='first'))
+        expected.append(o1)
+        if o1[0] == 'OK' and isinstance(o1[1], str) and first and is_lossless_for(npd, first[0], DIRC[d]):
+            tasks.append(dict(op='cm-decompress', context=text, schc=o1[1], direction=DIRC[d], side=rnd2.choice('LR')))
+            expected.append(('OK', b2s(pkt)))
+    freshproc.compare(rep, 'C01:two-hosts', tasks, expected, lambda t: '%s on the other host' % t['op'])
 
 
 def replay(case):
